@@ -124,7 +124,9 @@ impl Paragraph {
 
 impl std::fmt::Display for Field {
     fn fmt(&self, f: &mut std::fmt::Formatter) -> std::fmt::Result {
-        let lines = self.value.lines().collect::<Vec<_>>();
+        // split on '\n' rather than lines(): a value that ends in a newline has an
+        // empty last line, which must be printed (as a continuation line) to survive
+        let lines = self.value.split('\n').collect::<Vec<_>>();
         if lines.len() > 1 {
             write!(f, "{}:", self.name)?;
             for line in lines {
